@@ -357,6 +357,122 @@ def lagrange_checks(run, lg):
     run.extra["lagrange_paths_feasible"] = run.extra.get("lagrange_paths_feasible", 0) + nfeas
 
 
+def _py_fft(a, w):
+    """independent radix-2 transform: out[j] = sum_i a[i] w^(i j), len(a) a power of two"""
+    n = len(a)
+    if n == 1:
+        return list(a)
+    w2 = w * w % R
+    ev, od = _py_fft(a[0::2], w2), _py_fft(a[1::2], w2)
+    out = [0] * n
+    t = 1
+    for j in range(n // 2):
+        x = t * od[j] % R
+        out[j] = (ev[j] + x) % R
+        out[j + n // 2] = (ev[j] - x) % R
+        t = t * w % R
+    return out
+
+
+def parallel_fft_checks(run, cases):
+    """Domain of 2^12 points under rayon pools of several sizes (the parallel butterfly kernels):
+    a vector with a few SYMBOLIC entries (positions listed) and seed-derived concrete entries
+    elsewhere goes through the real transform; every one of the 4096 outputs, normalised to a linear
+    form in the symbolic entries, must equal the definition (constants by an independent radix-2
+    transform, coefficients w^(i j) etc.).  One solver query per run: the disjunction of all output
+    differences is unsatisfiable."""
+    import random
+    import xengine as xe
+    from checks.common import real_at
+    for op, lg, threads in cases:
+        n = 1 << lg
+        rnd = random.Random(run.seed * 1000 + threads + lg)
+        pos = sorted({0, 1, n // 2 - 1, n // 2, n - 1} | {rnd.randrange(n) for _ in range(5)})
+        args = ["kernels", "fft_sparse", op, str(lg), ",".join(map(str, pos))]
+        sb = fw.run_driver(fw.SYM_BIN, args, run.seed, extra_env={"RAYON_NUM_THREADS": str(threads)})
+        ctx = smt.Ctx()
+        nodes = ctx.from_nodes(sb["nodes"])
+        o = sb["outputs"]
+        dom = {k: (int(v, 16) if isinstance(v, str) else v) for k, v in o["domain"].items()}
+        w, winv, sinv, g = dom["w"], dom["winv"], dom["size_inv"], dom["g"]
+        ginv = pow(g, R - 2, R)
+        conc = [0 if v is None else int(v, 16) for v in o["input"]]
+        tag = f"parallel/{op}/n{n}/threads{threads}"
+
+        def transform(vec):
+            if op == "fft":
+                return _py_fft(vec, w)
+            if op == "coset_fft":
+                return _py_fft([x * pow(g, i, R) % R for i, x in enumerate(vec)], w)
+            inv = [x * sinv % R for x in _py_fft(vec, winv)]
+            if op == "ifft":
+                return inv
+            return [x * pow(ginv, i, R) % R for i, x in enumerate(inv)]
+        const = transform(conc)
+        cols = {}
+        for pp in pos:
+            unit = [0] * n
+            unit[pp] = 1
+            cols[pp] = transform(unit)
+        memo = {}
+        bad_terms, lines = [], []
+        decl = [f"(declare-const {smt.vname(f'x{pp}')} Int)" for pp in pos]
+        nonlinear = 0
+        for j, oid in enumerate(o["out"]):
+            e = nodes[oid] if isinstance(oid, int) else ctx.const(int(oid, 16))
+            lf = xe.linear_form(e, memo)
+            if lf is None:
+                nonlinear += 1
+                continue
+            diff = {}
+            for k_, c_ in lf.items():
+                diff[k_] = (diff.get(k_, 0) + c_) % R
+            diff[1] = (diff.get(1, 0) - const[j]) % R
+            for pp in pos:
+                key = f"x{pp}"
+                diff[key] = (diff.get(key, 0) - cols[pp][j]) % R
+            diff = {k_: c_ for k_, c_ in diff.items() if c_ % R}
+            if diff:
+                terms = [str(c_) if k_ == 1 else f"(* {c_} {smt.vname(k_)})" for k_, c_ in diff.items()]
+                bad_terms.append((j, f"(not (= (mod (+ 0 {' '.join(terms)}) {R}) 0))"))
+        if nonlinear:
+            run.inconclusive.append(f"{tag}: {nonlinear} outputs are not linear in the inputs")
+
+        def rp(model, args=args, threads=threads, pos=pos, transform=transform, conc=conc):
+            env = {f"x{pp}": "%064x" % (model.get(smt.vname(f"x{pp}"), 1) % R) for pp in pos}
+            import json as _j, os as _o, tempfile as _t
+            fd, pth = _t.mkstemp(prefix="env_", suffix=".json", dir=fw.OUT)
+            with _o.fdopen(fd, "w") as f:
+                _j.dump(env, f)
+            try:
+                rb = fw.run_driver(fw.REAL_BIN, args, run.seed, env_file=pth, extra_env={"RAYON_NUM_THREADS": str(threads)})
+            finally:
+                _o.unlink(pth)
+            vec = list(conc)
+            for pp in pos:
+                vec[pp] = int(env[f"x{pp}"], 16)
+            want = transform(vec)
+            got = [int(x, 16) for x in rb["outputs"]["out"]]
+            wrong = [j for j in range(len(want)) if want[j] != got[j]]
+            return bool(wrong), {"driver": args, "threads": threads, "env": env, "wrong_outputs": len(wrong),
+                                 "first_wrong_index": wrong[0] if wrong else None}
+        # all-output disjunction: satisfiable iff some output differs from its definition for some input
+        goal = "(or false " + " ".join(t for _, t in bad_terms) + ")"
+        o_ = run.obligation(f"{tag}/all-outputs", ["; normalised linear forms of the 4096 outputs"] + decl +
+                            [f"(assert (and (<= 0 {smt.vname(f'x{pp}')}) (< {smt.vname(f'x{pp}')} {R})))" for pp in pos],
+                            [goal], "unsat", "identity/linear", replay=rp,
+                            meta={"outputs": len(o["out"]), "symbolic_positions": pos, "differing_forms": len(bad_terms)})
+        # translator validation: the real build at the seed's values agrees with the independent transform
+        ok, det = rp({})
+        run.validation["points"] += 1
+        run.validation["outputs_compared"] += n
+        if ok:
+            run.validation["mismatches"] += det["wrong_outputs"]
+    run.bounds.append("parallel kernels: " + ", ".join(f"{op} n=2^{lg} threads={t}" for op, lg, t in cases) +
+                      "; 8-10 symbolic entries per vector (ends, middle, random positions), all other entries "
+                      "concrete; ALL values of the symbolic entries")
+
+
 def run(run):
     quick = run.tier == "quick"
     logs = [0, 1, 2, 3] if quick else [0, 1, 2, 3, 4, 5]
@@ -364,8 +480,13 @@ def run(run):
     poly_checks(run, 3 if quick else 5)
     batch_inv_checks(run, 3 if quick else 4)
     closed_forms(run, [1, 2, 3] if quick else [1, 2, 3, 4])
+    par = [("fft", 12, 4), ("fft", 12, 17), ("coset_fft", 12, 16), ("ifft", 12, 17)] if quick else \
+        [(op, lg, t) for op in ("fft", "ifft", "coset_fft", "coset_ifft") for lg in (12, 13) for t in (1, 3, 4, 9, 16, 17)] + \
+        [("fft", 14, 17), ("coset_ifft", 14, 5)]
+    parallel_fft_checks(run, par)
     run.bounds.append(f"domain sizes 2^{logs}; input lengths n/2, n-1, n (and 1); polynomial lengths <= "
                       f"{3 if quick else 5}; batch inversion length <= {3 if quick else 4} with every zero pattern; "
                       "ALL values of every vector entry / evaluation point")
-    run.outside.append("sizes >= 2^6; the rayon strategies above the 2^12 threshold and thread counts; inverse "
-                       "transforms of evaluation vectors longer than the domain (no defined meaning)")
+    run.outside.append("fully symbolic vectors at sizes >= 2^6 (at 2^12..2^14 only a few entries are symbolic); thread "
+                       "counts and sizes other than the listed ones; scheduling (C18); inverse transforms of "
+                       "evaluation vectors longer than the domain (no defined meaning)")
